@@ -371,6 +371,10 @@ impl SubCheck for Seq {
     fn watchdog_secs(&self) -> u64 {
         20
     }
+    fn crash_guard(&self) -> bool {
+        // a reader that reserves memory for an absurd request would abort the process: report it with its input
+        true
+    }
     fn rule(&self) -> String {
         let mut s = String::from(
             "1..59 operations over {read_u8, peek_u8, read_bool, read_u16/u32/u64/u128, read_usize, read_slice(n<=600 incl. 0), read_array<0|1|8|16|32|300>, read_vec, read_string, read_many<u8|u64|(u8,u16)>, check_eor, has_more_bytes}; byte stream (<=2000 bytes) assembled from per-operation payloads (valid vint64 / 0-1 / UTF-8 mostly), then exact / extended / truncated; source chunking in {1-byte, <16, random, around 256, around 512, one big}, never a zero-length chunk before EOF; model SliceReader, Cursor and ReadAdapter compared after every step and by a final drain. non-trivial = a source chunk boundary falls strictly inside a multi-byte read AND a read_slice(n>0) is followed by another consuming read; distinct by whole case",
@@ -416,6 +420,22 @@ impl SubCheck for Seq {
     }
 
     fn check(&self, c: &SeqCase, obs: &mut Obs) -> CheckResult {
+        vf_core::crash::guard_begin();
+        let r = self.check_inner(c, obs);
+        let max_req = vf_core::crash::guard_end();
+        r?;
+        ensure!(
+            max_req <= (16usize << 20).max(4096 * c.data.len()),
+            "alloc/out-of-proportion",
+            "a single allocation of {max_req} bytes was requested while reading a stream of {} bytes",
+            c.data.len() / 2
+        );
+        Ok(())
+    }
+}
+
+impl Seq {
+    fn check_inner(&self, c: &SeqCase, obs: &mut Obs) -> CheckResult {
         let data = vf_core::unhex(&c.data);
         let mut model = SliceReader::new(&data);
         let mut cursor = Cursor::new(&data[..]);
